@@ -561,27 +561,43 @@ func (f *Func) boundErrorIsReturned(call *ast.CallExpr) bool {
 
 // semanticLeaves counts the atomic tests (leaves of && / || / !) of all conditions that guard vertex v, leaving out
 // nil tests (a defensive `x != nil` may come and go without changing behaviour). It is the size of the gate in front
-// of v: a gate that grows by a test on some unrelated flag has been narrowed. Conditions outside the top-level statement
-// that contains v (early returns further up) are not counted.
+// of v: a gate that grows by a test on some unrelated flag has been narrowed. Exit guards (conditions whose other outcome
+// leaves without rejoining what follows v) are not counted.
 func (g *Graph) semanticLeaves(v int) (int, string) {
 	n := 0
 	var parts []string
-	// only conditions inside the same top-level statement of the function body count: an early return further up is a
-	// different decision (and may come and go for reasons that have nothing to do with this gate)
-	var top ast.Node
-	if at := g.node[v]; at != nil {
-		for _, st := range g.F.Body.List {
-			if encloses(st, at) {
-				top = st
-			}
-		}
-	}
-	for _, cv := range g.guardingConds(v) {
-		e, ok := g.node[cv].(ast.Expr)
+	future := g.ReachableFrom(v)
+	future[v] = true
+	for _, ev := range g.condVertices() {
+		e, ok := g.node[ev-1].(ast.Expr)
 		if !ok {
 			continue
 		}
-		if top != nil && !encloses(top, e) {
+		// which outcome of this condition is needed to get to v?
+		need := -1
+		for k := 0; k < 2; k++ {
+			seen, _ := g.reach([]int{g.Entry}, nil, func(u, kk int) bool { return u == ev && kk == k })
+			if v != g.Entry && !seen[v] {
+				need = k // with edge k removed v is unreachable: every path to v takes it
+			}
+		}
+		if need < 0 {
+			continue
+		}
+		// an exit guard (early return, the refusing arm of a validation) decides between reaching v and leaving: its other
+		// outcome never rejoins anything that follows v. Such a condition is a different decision — and whether it sits in
+		// front of v as a statement of its own or wraps v in an else makes no difference to this test.
+		alt := g.succ[ev][1-need]
+		altSeen, _ := g.reach([]int{alt}, nil, nil)
+		altSeen[alt] = true
+		rejoins := false
+		for u, in := range altSeen {
+			if in && future[u] {
+				rejoins = true
+				break
+			}
+		}
+		if !rejoins {
 			continue
 		}
 		var leaves []Atom
